@@ -42,6 +42,17 @@ class Sym:
         env = {}
         for p in self.fi.params:
             env[p] = (bound or {}).get(p, ("param", p))
+        if self.fi.is_generator:
+            # a generator is the list of what it yields:  `yield v` is an append to that list
+            body = _yields_as_appends(self.fi.node)
+            if body is None:
+                return ("opaque", self.fi.qual)
+            env["__yield__"] = ("list", ())
+            ok = self._run(list(body), env, depth, collect=None)
+            v = env.get("__yield__")
+            if not ok or v is None or v[0] in ("opaque", "loop", "mutated", "filled"):
+                return ("opaque", self.fi.qual)
+            return _norm_list(v)
         res = self._block(self.fi.node.body, env, depth)
         if res is None:
             return ("opaque", self.fi.qual)
@@ -593,7 +604,19 @@ class Sym:
         if isinstance(e, ast.Dict):
             return ("dict", tuple((self.expr(k, env, depth), self.expr(v, env, depth)) for k, v in zip(e.keys, e.values)))
         if isinstance(e, ast.Subscript):
-            return ("sub", self.expr(e.value, env, depth), self.expr(e.slice, env, depth))
+            base, idx = self.expr(e.value, env, depth), self.expr(e.slice, env, depth)
+            if base[0] == "global" and isinstance(e.value, ast.Name):
+                # a two-entry constant table keyed by truth is a conditional:  TABLE[bool(x)]  (lookups by name stay symbolic)
+                r = self.prog.resolve_name(self.fi.module, e.value.id)
+                tab = self.prog.try_fold(r[1], r[2], default=None) if r and r[0] == "const" else None
+                simple = lambda v: v is None or isinstance(v, (bool, int, float, str, bytes))
+                if isinstance(tab, dict) and all(simple(v) for v in tab.values()):
+                    try:
+                        if idx[0] == "call" and idx[1] == "bool" and len(idx[2]) == 1 and set(tab) == {True, False}:
+                            return mkphi(idx[2][0], ("const", tab[True]), ("const", tab[False]))
+                    except TypeError:
+                        pass
+            return ("sub", base, idx)
         if isinstance(e, ast.Slice):
             return ("slice", self.expr(e.lower, env, depth), self.expr(e.upper, env, depth), self.expr(e.step, env, depth))
         if isinstance(e, (ast.ListComp, ast.GeneratorExp, ast.SetComp)):
@@ -700,7 +723,7 @@ class Sym:
                 target = r[1]
             elif r and r[0] == "class":
                 return ("new", r[1].qual, args, kws)
-        if target is not None and self.inline and depth < MAX_INLINE and not target.is_generator:
+        if target is not None and self.inline and depth < MAX_INLINE:
             v = self._inline(target, c, args, kws, depth, tcls)
             if v is not None:
                 return v
@@ -761,6 +784,45 @@ def _rename_self(v, base):
             return ("attr", base, v[1])
         return tuple(_rename_self(y, base) for y in v)
     return v
+
+
+_GEN_CACHE = {}
+
+
+def _yields_as_appends(fnode):
+    """body of a generator function with every `yield v` statement replaced by `__yield__.append(v)` (and `yield from x` by
+    `__yield__.extend(x)`); None when a yield is used as an expression or the generator returns early"""
+    if id(fnode) in _GEN_CACHE:
+        return _GEN_CACHE[id(fnode)]
+    import copy
+    ok = [True]
+
+    class T(ast.NodeTransformer):
+        def visit_FunctionDef(self, n):
+            return n if n is not fnode_copy else self.generic_visit(n)
+
+        def visit_Lambda(self, n):
+            return n
+
+        def visit_Expr(self, n):
+            v = n.value
+            if isinstance(v, (ast.Yield, ast.YieldFrom)) and v.value is not None:
+                call = ast.Call(func=ast.Attribute(value=ast.Name(id="__yield__", ctx=ast.Load()), attr="append" if isinstance(v, ast.Yield) else "extend",
+                                                   ctx=ast.Load()), args=[v.value], keywords=[])
+                return ast.copy_location(ast.Expr(value=ast.copy_location(call, n)), n)
+            return n
+
+        def visit_Return(self, n):
+            ok[0] = False
+            return n
+    fnode_copy = copy.deepcopy(fnode)
+    T().visit(fnode_copy)
+    ast.fix_missing_locations(fnode_copy)
+    if any(isinstance(x, (ast.Yield, ast.YieldFrom)) for st in fnode_copy.body for x in ast.walk(st)):
+        ok[0] = False
+    res = fnode_copy.body if ok[0] else None
+    _GEN_CACHE[id(fnode)] = res
+    return res
 
 
 INVERSE = {"is": "is not", "is not": "is", "==": "!=", "!=": "==", "in": "not in", "not in": "in"}
